@@ -465,6 +465,7 @@ func (rn *runner) play(c *Case, next func(s *sut, sp *spec, i int) *Op) (played,
 	sp.sy, sp.fl = uint64(pre), uint64(pre)
 	oracle := true
 	rewound, reopened := false, false
+	_ = reopened
 	var okAppend, okRead, spans, rewoundOK bool
 	depart := func(i int, tag, what string) {
 		if res.tag == "" {
@@ -520,14 +521,18 @@ func (rn *runner) play(c *Case, next func(s *sut, sp *spec, i int) *Op) (played,
 		switch {
 		case pre > 0:
 			taint = "preallocated"
-		case rewound && reopened:
-			taint = "rewound+reopened"
 		case rewound:
 			taint = "rewound"
 		}
 		if !sameOut(out, want) {
 			depart(i, fmt.Sprintf("%s/%s", taint, shape(*op, out, want)),
 				fmt.Sprintf("%s returned %s, a byte-array log gives %s", opTerm(*op), outTerm(out), outTerm(want)))
+			continue
+		}
+		if op.K == "reopen" && out.K == "ok" && pre > 0 {
+			// "the same size unless files are preallocated": the reopened log also holds whatever
+			// the preallocated file holds beyond the old size; the byte-slice log cannot follow
+			oracle = false
 			continue
 		}
 		if op.K == "reopen" && out.K == "ok" {
